@@ -4,10 +4,10 @@
   site in src/protocol/handler.rs).  Spec: the page is `take limit (drop offset s)` for some permutation
   `s` of the answer that is sorted in the exact order the annotations denote (ties in any order; rows
   with a NaN sort key may stand anywhere), and `total = |answer|`.
-  The full statement is FALSE of the faithful model: the comparator is not a total preorder (NaN ties
-  with every number; Int64 is rounded to f64 before being compared with Float64).
+  After the repair of `compare_wire_values` (NaN after every number; Int64 against Float64 compared
+  exactly) the comparator is a total preorder on all values and the full statement holds.
 -/
-import ILV.Lemmas.WireSort
+import ILV.Lemmas.WireOrder
 import ILV.Gen.C35
 namespace ILV.Props.C35
 open ILV
@@ -41,66 +41,88 @@ example : applyPagination [[.i64 1], [.i64 2], [.i64 3], [.i64 4]] (some 2) (som
     applyPagination [[.i64 1], [.i64 2]] (some 5) (some 7) = [] ∧
     applyPagination [[.i64 1], [.i64 2]] none (some 1) = [[.i64 2]] := by decide
 
-/-! ## the full statement, its refutation -/
+/-! ## the comparator is a total preorder (all values, all rows) -/
 
-/-- **C35, full statement**: for every answer, keys, limit and offset the page is a slice of a permutation
-    of the answer sorted in the exact order of the annotations, and the total is the answer size. -/
-def C35_statement : Prop :=
-  ∀ (a : List WRow) (keys : List SortKey) (limit offset : Option Nat),
+/-- **`compare_wire_values` is a total preorder** on all optional wire values (Int64 holding an `i64`):
+    antisymmetric up to ties and transitive — NaN, ±0, integers beyond 2^53 against doubles included. -/
+theorem compareWire_total_preorder : TP OptWF compareWire := compareWire_tp
+
+/-- hence so is the closure `sort_rows` hands to `sort_by`, for every key list and all rows: the
+    contract of `slice::sort_by` is always met, it never panics and returns the stable sorted permutation. -/
+theorem sort_closure_total_preorder (keys : List SortKey) : TP RowWF (rowCmp keys) := rowCmp_tp keys
+
+/-- 1.0 ≤ NaN ≤ 0.0 no longer "implies" 1.0 ≤ 0.0: NaN is above every number; and the integers around
+    2^53 are ordered exactly against 2^53.0. -/
+example :
+    compareWV (.f64 0x3ff0000000000000) (.f64 0x7ff8000000000000) = .lt ∧
+    compareWV (.f64 0x7ff8000000000000) (.f64 0) = .gt ∧
+    compareWV (.f64 0xfff8000000000000) (.i64 5) = .gt ∧
+    compareWV (.i64 9007199254740993) (.f64 0x4340000000000000) = .gt ∧
+    compareWV (.f64 0x4340000000000000) (.i64 9007199254740992) = .eq ∧
+    compareWV (.f64 0x8000000000000000) (.i64 0) = .eq ∧ compareWV (.f64 0) (.f64 0x8000000000000000) = .eq := by decide
+
+/-! ## the full statement -/
+
+/-- comparator = exact order of the annotations on rows without a NaN sort key. -/
+theorem specCmpV_eq_of_not_nan (a b : WVal) (ha : a.isNaN = false) (hb : b.isNaN = false) :
+    specCmpV a b = compareWV a b := by
+  cases a <;> cases b <;> simp_all [specCmpV, compareWV, WVal.isNaN, cmpI64F64, cmpIntF]
+
+theorem specRowCmp_eq (keys : List SortKey) (x y : WRow)
+    (hx : rowHasNaNKey keys x = false) (hy : rowHasNaNKey keys y = false) :
+    specRowCmp keys x y = rowCmp keys x y := by
+  induction keys with
+  | nil => rfl
+  | cons k ks ih =>
+    obtain ⟨col, desc⟩ := k
+    simp only [rowHasNaNKey, List.any_cons, Bool.or_eq_false_iff] at hx hy
+    have ih' := ih (by simpa [rowHasNaNKey] using hx.2) (by simpa [rowHasNaNKey] using hy.2)
+    have hcol : specCmpO x[col]? y[col]? = compareWire x[col]? y[col]? := by
+      cases hxv : x[col]? with
+      | none => cases y[col]? <;> rfl
+      | some vx =>
+        cases hyv : y[col]? with
+        | none => rfl
+        | some vy =>
+          simp only [specCmpO, compareWire]
+          apply specCmpV_eq_of_not_nan
+          · have := hx.1; simpa [hxv] using this
+          · have := hy.1; simpa [hyv] using this
+    simp only [specRowCmp, rowCmp, hcol, ih']
+
+/-- Spec sortedness as a proposition: the rows without a NaN sort key are in the exact order. -/
+def SpecSorted (keys : List SortKey) (s : List WRow) : Prop :=
+  (s.filter (fun r => !rowHasNaNKey keys r)).Pairwise (fun x y => specRowCmp keys x y ≠ .gt)
+
+/-- **C35, full statement**: for every answer (of well-formed rows), every key list, limit and offset:
+    the reported total is the answer size and the page is `take limit (drop offset s)` for a permutation
+    `s` of the answer that is sorted by the annotations — w.r.t. the comparator on all rows (NaN keys last
+    in ascending order) and hence w.r.t. the exact Spec order on the rows without a NaN key.
+    Sorting cannot fail: the closure is a total preorder (`sort_closure_total_preorder`). -/
+theorem C35 (a : List WRow) (keys : List SortKey) (limit offset : Option Nat) (hw : ∀ r ∈ a, RowWF r) :
     (queryPage a keys limit offset).1 = a.length ∧
-    specPageOk keys a limit offset (queryPage a keys limit offset).2 = true
-
-/-- 3.0, NaN, 1.0 sorted ascending comes back unchanged: NaN ties with both neighbours. -/
-theorem C35_refuted : ¬ C35_statement := by
-  intro h
-  have := (h [[.f64 0x4008000000000000], [.f64 0x7ff8000000000000], [.f64 0x3ff0000000000000]] [(0, false)] none none).2
-  revert this
-  decide
-
-/-- second defect family: Int64 2^53+1, Float64 2^53, Int64 2^53 — both integers tie with the float
-    (after rounding to f64) but not with each other; the result is returned unchanged, out of order. -/
-theorem C35_refuted_int64_float64 :
-    ∃ (a : List WRow) (keys : List SortKey),
-      specPageOk keys a none none (queryPage a keys none none).2 = false ∧
-      a.all (fun r => !rowHasNaNKey keys r) = true := by
-  refine ⟨[[.i64 9007199254740993], [.f64 0x4340000000000000], [.i64 9007199254740992]], [(0, false)], ?_⟩
-  decide
-
-/-- the comparator itself is not a preorder: 1.0 ≤ NaN ≤ 0.0 but 1.0 > 0.0; 2^53+1 ≤ 2^53.0 ≤ 2^53 but 2^53+1 > 2^53. -/
-theorem compareWire_not_transitive :
-    (compareWV (.f64 0x3ff0000000000000) (.f64 0x7ff8000000000000) ≠ .gt ∧
-     compareWV (.f64 0x7ff8000000000000) (.f64 0) ≠ .gt ∧
-     compareWV (.f64 0x3ff0000000000000) (.f64 0) = .gt) ∧
-    (compareWV (.i64 9007199254740993) (.f64 0x4340000000000000) ≠ .gt ∧
-     compareWV (.f64 0x4340000000000000) (.i64 9007199254740992) ≠ .gt ∧
-     compareWV (.i64 9007199254740993) (.i64 9007199254740992) = .gt) := by decide
-
-/-! ## the partial theorem -/
-
-/-- **C35, partial**: excluded are exactly the inputs on which the `sort_by` closure is not a total
-    preorder (`lawfulRows keys a = false`, a decidable predicate — it fails only when a sort column
-    contains a NaN or mixes Float64 with an Int64 the f64 rounding moves) and those where a sort column
-    mixes Int64 with Float64 at all (`noIntFloatMix`, needed for "comparator = exact order").
-    On all other answers: the page is `take limit (drop offset s)` for a permutation `s` of the answer
-    that is sorted w.r.t. the exact order `specRowCmp`, and the total is exact. -/
-theorem C35_partial (a : List WRow) (keys : List SortKey) (limit offset : Option Nat)
-    (hl : lawfulRows keys a = true) (hm : noIntFloatMix keys a = true) (hk : keys ≠ []) :
-    (queryPage a keys limit offset).1 = a.length ∧
-    ∃ s : List WRow, s.Perm a ∧ s.Pairwise (fun x y => specRowCmp keys x y ≠ .gt) ∧
+    ∃ s : List WRow, s.Perm a ∧
+      (keys ≠ [] → s.Pairwise (fun x y => rowCmp keys x y ≠ .gt) ∧ SpecSorted keys s) ∧
+      (keys = [] → s = a) ∧
       (queryPage a keys limit offset).2 =
         match limit with
         | some n => (s.drop (offset.getD 0)).take n
         | none => s.drop (offset.getD 0) := by
-  refine ⟨total_is_answer_size a keys limit offset, sortRows a keys, sort_perm a keys, ?_, ?_⟩
-  · have hne : keys.isEmpty = false := by cases keys <;> simp_all
-    have hs := stdInsertionSort_sorted a (rowCmp keys) (preorderOn_of_lawfulRows keys a hl)
-    have hperm := sort_perm a keys
-    unfold sortRows at hperm ⊢
-    simp only [hne, Bool.false_eq_true, if_false] at hperm ⊢
-    refine List.Pairwise.imp_of_mem ?_ hs
+  refine ⟨total_is_answer_size a keys limit offset, sortRows a keys, sort_perm a keys, ?_, ?_, ?_⟩
+  · intro hk
+    have hne : keys.isEmpty = false := by cases keys <;> simp_all
+    have hs := stdInsertionSort_sorted a (rowCmp keys) (preorderOn_rows keys a hw)
+    have hsort : (sortRows a keys).Pairwise (fun x y => rowCmp keys x y ≠ .gt) := by
+      unfold sortRows; simpa [hne] using hs
+    refine ⟨hsort, ?_⟩
+    unfold SpecSorted
+    have hsub := List.Pairwise.sublist (List.filter_sublist (p := fun r => !rowHasNaNKey keys r) (l := sortRows a keys)) hsort
+    refine List.Pairwise.imp_of_mem ?_ hsub
     intro x y hx hy hxy
-    rw [rowCmp_eq_spec keys a hm x y (hperm.mem_iff.1 hx) (hperm.mem_iff.1 hy)]
-    exact hxy
+    have nx : rowHasNaNKey keys x = false := by simpa using (List.mem_filter.1 hx).2
+    have ny : rowHasNaNKey keys y = false := by simpa using (List.mem_filter.1 hy).2
+    rw [specRowCmp_eq keys x y nx ny]; exact hxy
+  · intro hk; subst hk; rfl
   · unfold queryPage
     exact applyPagination_eq _ _ _
 
@@ -113,13 +135,17 @@ theorem C35_no_annotations (a : List WRow) (limit offset : Option Nat) :
   unfold queryPage sortRows
   exact applyPagination_eq _ _ _
 
-/-- the hypotheses of `C35_partial` are met by a non-trivial input: two keys, mixed kinds, descending
-    direction, ties, a page in the middle — and the conclusion is not vacuous. -/
+/-- the former witnesses of the two defect families are now sorted (and accepted by the oracle);
+    a non-trivial multi-key page. -/
 example :
-    let a : List WRow := [[.i64 2, .str [98]], [.null, .str [97]], [.i64 1, .str [98]], [.i64 2, .str [97]], [.i64 1, .str [99]]]
-    let keys : List SortKey := [(1, true), (0, false)]
-    lawfulRows keys a = true ∧ noIntFloatMix keys a = true ∧
-    (queryPage a keys (some 2) (some 1)).2 = [[.i64 1, .str [98]], [.i64 2, .str [98]]] := by decide
+    sortRows [[.f64 0x4008000000000000], [.f64 0x7ff8000000000000], [.f64 0x3ff0000000000000]] [(0, false)]
+      = [[.f64 0x3ff0000000000000], [.f64 0x4008000000000000], [.f64 0x7ff8000000000000]] ∧
+    sortRows [[.i64 9007199254740993], [.f64 0x4340000000000000], [.i64 9007199254740992]] [(0, false)]
+      = [[.f64 0x4340000000000000], [.i64 9007199254740992], [.i64 9007199254740993]] ∧
+    specPageOk [(0, false)] [[.i64 9007199254740993], [.f64 0x4340000000000000], [.i64 9007199254740992]] none none
+      (queryPage [[.i64 9007199254740993], [.f64 0x4340000000000000], [.i64 9007199254740992]] [(0, false)] none none).2 = true ∧
+    (let a : List WRow := [[.i64 2, .str [98]], [.null, .str [97]], [.i64 1, .str [98]], [.i64 2, .str [97]], [.i64 1, .str [99]]]
+     (queryPage a [(1, true), (0, false)] (some 2) (some 1)).2 = [[.i64 1, .str [98]], [.i64 2, .str [98]]]) := by decide
 
 /-! ## T-gen: the regenerated tables of `wire_value_type_rank` / cross-kind comparison -/
 
